@@ -94,6 +94,7 @@ func reference(text string) want {
 
 func main() {
 	run := vr.New("C17", "model_checking")
+	defer run.Recover()
 	freepass.MaybeReplay(run)
 	b, err := os.ReadFile(filepath.Join(vr.Root(), "testdata", "error_catalogue.json"))
 	if err != nil || json.Unmarshal(b, &catalogue) != nil {
@@ -187,6 +188,8 @@ func isScheduleReplay(run *vr.Run) bool {
 func checkText(run *vr.Run, text string, code int32) {
 	id := fmt.Sprintf("%q/%d", text, code)
 	rep := map[string]any{"Text": text, "Code": code}
+	run.Begin("parse", id, rep)
+	defer run.End()
 	w := reference(text)
 	var e error
 	p, pm, fr := vr.Try(func() { e = mtproto.RpcErrorToNative(&objects.RpcError{ErrorCode: code, ErrorMessage: text}) })
